@@ -499,11 +499,6 @@ Result execute(const Plan &p) {
     // a team smaller than omp_get_max_threads(): the caller sits in its own parallel region, nested regions are serialised (the
     // default of every OpenMP runtime) - the library's regions run with one thread while omp_get_max_threads() still says nt
     Output onest; sim::RunStatus s3; bool nested = p.get("nested", 0) != 0 && nt >= 2;
-    // (the level-scheduled Gauss-Seidel / ILU solves with >= 4 configured threads are a recorded finding in this situation - see
-    //  known_findings.json C09-nested-level-schedule; whole solves that use them would only repeat it)
-    // (whole hierarchies and solves are run from inside a caller's region in C01 and C10, judged there by truthfulness and by heap / stack
-    //  independence; here the comparison with the single-threaded reference is kept to the kernels, reductions, sweeps and adapters)
-    if (nested && (w.comp == C_SOLVE || w.comp == C_HIER) && !getenv("C09_NESTED_ALL")) nested = false;
     if (nested) {
         s3 = world(nt, p.sched, [&]() {
             #pragma omp parallel
